@@ -261,6 +261,16 @@ def handler(payload):
             kw = kw_of(op.get("kw"))
             kw.pop("der_format", None)
             return bool(p.verify_signature(H(op["sig"]), H(op["data"]), **kw))
+        if o == "match_sig":
+            # spsdk.crypto.utils.get_matching_key_id_from_signature over a list of loaded keys
+            from spsdk.crypto.utils import get_matching_key_id_from_signature
+            pubs = []
+            for kid in op["ids"]:
+                k = table[kid]
+                pubs.append(k.get_public_key() if isinstance(k, PrivateKey) else k)
+            kw = kw_of(op.get("kw"))
+            kw.pop("der_format", None)
+            return get_matching_key_id_from_signature(pubs, H(op["data"]), H(op["sig"]), **kw)
         if o == "verify_flips":
             k = table[op["id"]]
             p = k.get_public_key() if isinstance(k, PrivateKey) else k
